@@ -10,7 +10,7 @@
 (***************************************************************************)
 EXTENDS Integers, Sequences
 
-MaxLen == 16
+MaxStrLen == 16
 
 Utf8Len(c) == IF c < 128 THEN 1 ELSE IF c < 2048 THEN 2 ELSE IF c < 65536 THEN 3 ELSE 4
 
@@ -22,7 +22,7 @@ Upper(c)   == IF c >= 97 /\ c <= 122 THEN c - 32 ELSE c
 
 Normalize(cps) ==
     LET n == Utf8Total(cps) IN
-    IF n = 0 \/ n > MaxLen THEN [kind |-> "errLen"]
+    IF n = 0 \/ n > MaxStrLen THEN [kind |-> "errLen"]
     ELSE LET badIdx == {i \in 1..Len(cps) : ~Allowed(cps[i])} IN
          IF badIdx # {} THEN
               LET first == CHOOSE i \in badIdx : \A j \in badIdx : i <= j
